@@ -23,9 +23,10 @@ type srcRenderer struct {
 	// how the API is referred to in coMode: "" for a dot import, "co." etc.
 	api string
 	// names of the key / value variables of the enclosing range loops (innermost last)
-	kv  [][2]string
-	fn  string // name of the function being rendered (package-level helper names derive from it)
-	box bool   // element type *rt.Box instead of int
+	kv   [][2]string
+	form string // declaration form of generators in coMode: "" (function) | method | generic | lit | nestedlit
+	fn   string // name of the function being rendered (package-level helper names derive from it)
+	box  bool   // element type *rt.Box instead of int
 }
 
 func (sr *srcRenderer) kvName(n string) string {
@@ -601,6 +602,20 @@ func (sr *srcRenderer) genFunc(name string, prog []any, trailing string) string 
 		if uk == "rtparam" { // the generator is generic, ts has a type-parameter type
 			return fmt.Sprintf("func %s(r *rt.Rec, a, b int) %sIter[int] { return %sg[[]int](r, a, b, []int{10, 20, 30}) }\n\nfunc %sg[S ~[]int](r *rt.Rec, a, b int, ts S) %sIter[int] {\n%s%s}\n",
 				name, sr.api, name, name, sr.api, prolog, body)
+		}
+		it := sr.api + "Iter[" + elem + "]"
+		switch sr.form {
+		case "method": // a method generator, reached through a plain wrapper function
+			return fmt.Sprintf("type host%s struct{}\n\nfunc (host%s) Gen(r *rt.Rec, a, b int) %s {\n%s%s}\n\nfunc %s(r *rt.Rec, a, b int) %s { return host%s{}.Gen(r, a, b) }\n%s",
+				name, name, it, prolog, body, name, it, name, tailDecl)
+		case "generic": // a generic generator function, instantiated by a plain wrapper
+			return fmt.Sprintf("func %sg[Z any](r *rt.Rec, a, b int, _ Z) %s {\n%s%s}\n\nfunc %s(r *rt.Rec, a, b int) %s { return %sg[string](r, a, b, \"\") }\n%s",
+				name, it, prolog, body, name, it, name, tailDecl)
+		case "lit": // a function literal bound to a package-level variable
+			return fmt.Sprintf("var %s = func(r *rt.Rec, a, b int) %s {\n%s%s}\n%s", name, it, prolog, body, tailDecl)
+		case "nestedlit": // a generator literal nested in a generator literal (which delegates to it)
+			return fmt.Sprintf("var %s = func(r *rt.Rec, a, b int) %s {\n\tinner := func() %s {\n%s\t}\n\t%sYieldFrom(inner())\n\treturn nil\n}\n%s",
+				name, it, it, indent(prolog+body, "\t"), sr.api, tailDecl)
 		}
 		return fmt.Sprintf("func %s(r *rt.Rec, a, b int) %sIter[%s] {\n%s%s}\n%s", name, sr.api, elem, prolog, body, tailDecl)
 	}
